@@ -207,7 +207,8 @@ def sc_empty(rng, n):
                 k = rng.randrange(0, 1000)
                 ops.append("H %d insert %d %d" % (t, k + 1000 * t + 10000 * rnd, k))
             ops += both_dump("H", [1, 2, 3])
-        ops.append("H %d get %d %d" % (rng.randrange(1, 4), rng.randrange(0, 1000) + 1000, rng.randrange(0, 1000)))
+        gk = rng.randrange(0, 1000) + 1000 * rng.randrange(1, 4) + 10000 * rng.randrange(0, rnd + 1)
+        ops.append("H %d get %d %d" % (rng.randrange(1, 4), gk, gk % 1000))     # the hash code is a function of the key (key % 1000)
         if rng.random() < 0.5:
             ops.append("A get %d 16" % (900 + rnd))
     # vectors
